@@ -507,6 +507,28 @@ impl Ctx {
                 self.put(i, s);
                 0
             }
+            26 | 27 => {
+                // into_parts: keep only the validity (26) or only the values (27)
+                if !matches!(self.kind(i), 4 | 6) { return 3; }
+                let s = self.take(i).unwrap();
+                let has_nulls = match &s.o { Obj::Arr(x) => x.nulls().is_some(), Obj::BArr(x) => x.nulls().is_some(), _ => false };
+                if op.code == 26 && !has_nulls { self.put(i, s); return 3; }
+                let (o, capk) = match s.o {
+                    Obj::Arr(x) => {
+                        let (_, values, nulls) = x.into_parts();
+                        if op.code == 26 { drop(values); (Obj::Bits(nulls.unwrap().into_inner()), vec![s.capk[1]]) }
+                        else { drop(nulls); (Obj::Buf(values.into_inner()), vec![s.capk[0]]) }
+                    }
+                    Obj::BArr(x) => {
+                        let (values, nulls) = x.into_parts();
+                        if op.code == 26 { drop(values); (Obj::Bits(nulls.unwrap().into_inner()), vec![s.capk[1]]) }
+                        else { drop(nulls); (Obj::Bits(values), vec![s.capk[0]]) }
+                    }
+                    _ => unreachable!(),
+                };
+                self.put(i, Slot { o, capk });
+                0
+            }
             _ => 3,
         }
     }
@@ -789,7 +811,7 @@ fn random_op(g: &mut Gen, tid: usize, priv_slots: &std::collections::HashSet<usi
         if c.is_empty() { None } else { Some(c[g.r.below(c.len())]) }
     };
     let inplace_ok = |g: &Gen, i: usize| tid == 0 || priv_slots.contains(&i) || { let _ = g; false };
-    let choice = g.r.below(100);
+    let choice = g.r.below(102);
     match choice {
         0..=6 => { let esz = *g.r.pick(&[1usize, 1, 4, 4, 8]); let d = g.payload(esz); g.push(0, esz, 0, 0, tid, d); }
         7..=13 => { let d = g.payload(4); let id = *ncust; *ncust += 1; g.push(1, id, 0, 0, tid, d); }
@@ -869,7 +891,7 @@ fn random_op(g: &mut Gen, tid: usize, priv_slots: &std::collections::HashSet<usi
             if g.r.chance(1, 2) && j != i { g.push(23, i, j, 1, tid, vec![]); } else { g.push(23, i, 0, 0, tid, vec![]); }
         },
         98 => if let Some(i) = pick(g, &[9]) { g.push(24, i, 0, 0, tid, vec![]); },
-        _ => if let Some(i) = pick(g, &[2]) {
+        _ => if g.r.chance(2, 3) { if let Some(i) = pick(g, &[4, 6]) { let c = 26 + g.r.below(2); g.push(c, i, 0, 0, tid, vec![]); } } else if let Some(i) = pick(g, &[2]) {
             let len = g.with(i, |s| if let Obj::Mut(m) = &s.o { m.len() } else { 0 });
             let n = g.r.below(len + 2);
             g.push(25, i, n, 0, tid, vec![]);
@@ -966,7 +988,17 @@ fn scenario(g: &mut Gen, ncust: &mut usize) {
         3 => { // export, import, re-export of the imported array, drops in random order
             let custom = g.r.bool();
             let v = new_buf(g, ncust, 4, custom);
-            g.push(11, v, 0, 0, 0, vec![]);
+            if g.r.chance(2, 3) {
+                // validity in its own (custom or standard) region, possibly at a bit offset
+                let words = g.with(v, |s| view(&s.o).len()) / 4;
+                let need = (words + 7) / 8 + 2;
+                let mut nb = g.payload(1); while nb.len() < need { let more = nb.clone(); nb.extend_from_slice(&more); }
+                if g.r.bool() { let id = *ncust; *ncust += 1; g.push(1, id, 0, 0, 0, nb); } else { g.push(0, 1, 0, 0, 0, nb); }
+                let n = g.nslots - 1;
+                let off = *g.r.pick(&[0usize, 0, 3, 8]);
+                g.push(12, n, off, words, 0, vec![]);
+                g.push(11, v, n, 1, 0, vec![]);
+            } else { g.push(11, v, 0, 0, 0, vec![]); }
             if g.r.bool() { let l = g.with(v, |s| if let Obj::Arr(x) = &s.o { x.len() } else { 0 }); let o = g.r.below(l + 1); let n = g.r.below(l - o + 1); g.push(4, v, o, n, 0, vec![]); }
             let src = g.nslots - 1;
             let src = if g.ctx.kind(src) == 4 { src } else { v };
@@ -974,6 +1006,7 @@ fn scenario(g: &mut Gen, ncust: &mut usize) {
             if g.r.chance(1, 4) { g.push(5, e, 0, 0, 0, vec![]); return; }
             if g.r.bool() { g.push(5, v, 0, 0, 0, vec![]); if src != v && g.r.bool() { g.push(5, src, 0, 0, 0, vec![]); } }
             g.push(21, e, 0, 0, 0, vec![]);
+            if g.r.chance(1, 4) { let c = 26 + g.r.below(2); g.push(c, e, 0, 0, 0, vec![]); g.push(6, e, 0, 0, 0, vec![]); return; }
             g.push(14, e, 1, 0, 0, vec![]);                  // imported memory is never mutable
             g.push(20, e, 0, 0, 0, vec![]); let e2 = g.nslots - 1;
             if g.r.bool() { g.push(5, e, 0, 0, 0, vec![]); }
@@ -1020,6 +1053,7 @@ fn scenario(g: &mut Gen, ncust: &mut usize) {
             g.push(20, src, 0, 0, 0, vec![]); let e = g.nslots - 1;
             if g.r.bool() { g.push(5, v, 0, 0, 0, vec![]); }
             g.push(21, e, 0, 0, 0, vec![]);
+            if g.r.chance(1, 3) { let c = 26 + g.r.below(2); g.push(c, e, 0, 0, 0, vec![]); if g.r.bool() && src != v { g.push(5, src, 0, 0, 0, vec![]); } return; }
             if g.r.bool() { g.push(22, e, 0, 0, 0, vec![]); }
             if g.r.bool() { g.push(20, e, 0, 0, 0, vec![]); let e2 = g.nslots - 1; g.push(5, e, 0, 0, 0, vec![]); g.push(21, e2, 0, 0, 0, vec![]); }
         }
